@@ -151,12 +151,17 @@ fn program<T: Elem>(rng: &mut Rng, pages: usize, max_ops: usize, tag_heavy: bool
                         *rng.pick(&[0usize, 0, 1, 1, 2, 3, 5])
                     };
                     for _ in 0..nt {
-                        let pos = match rng.below(4) {
+                        let mut pos = match rng.below(4) {
                             0 => 0,
                             1 => n - 1,
                             2 => (n - 1).min(1),
                             _ => rng.below(n),
                         };
+                        if rng.chance(1, 60) {
+                            // outside the commit (against the documented contract): the samples are still
+                            // committed, the tag sits on a later cell
+                            pos = n + rng.below(3);
+                        }
                         let key = rng.below(4);
                         let val = rng.below(1000);
                         tags.push(Tag::new(pos, format!("k{key}"), TagValue::U64(val as u64)));
